@@ -9,9 +9,15 @@ the engine returns can be encoded).  The correspondence run (harness/props/c12.p
 takes the decoder verdict from the real `RequestMessage.read` and checks
 `EncoderOk` on every response the real session produced.
 
-Deviation of the code, kept visible: a requested Maximum Response Size of 0 is
-ignored (`if max_response_size:`, session.py l.218) — `OversizeReplaced` is the full
-statement, `oversize_replaced_partial` what holds, `oversize_zero_not_replaced` the witness.
+Deviations of the code, kept visible:
+ * `response.write` (session.py l.240) is outside every try block: when the engine returns a
+   response that cannot be encoded, the exception leaves `_handle_message_loop` and the client gets
+   nothing.  `OneResponsePerFrame` is the full statement, `one_response_per_frame_partial` what holds
+   (under `EngineEncodable`), `unencodable_response_unanswered` / `one_response_full_statement_fails`
+   the witness.  (Real input: KMIP 2.0 GetAttributes naming only attributes the object does not have.)
+ * a requested Maximum Response Size of 0 is ignored (`if max_response_size:`, l.218) —
+   `OversizeReplaced` is the full statement, `oversize_replaced_partial` what holds,
+   `oversize_zero_not_replaced` the witness.
 -/
 import KmipModel.Lemmas.Session
 namespace Kmip.C12
@@ -58,12 +64,23 @@ theorem frames_of_wellframed (fs : List Bytes) (hwf : ∀ f ∈ fs, WellFramed f
 
 /-! ## exactly one response per framed request -/
 
-/-- contract of the encoder parameter -/
+/-- contract of the encoder parameter: an error response (`build_error_response`) can be written
+and is not larger than the session's own maximum -/
 structure EncoderOk (env : Env Q R σ) (cfg : SessionCfg) : Prop where
-  /-- an error response can be written and is not larger than the session's own maximum -/
   errEnc : ∀ hdr rsn v, ∃ n, env.encLen (.error hdr rsn) v = some n ∧ n ≤ cfg.maxResponseSize
-  /-- what the engine returns can be written under the version it returns -/
-  engEnc : ∀ s q id r m v s', env.engine s q id = (.ok r m v, s') → ∃ n, env.encLen (.normal r) v = some n
+
+/-- what the engine returns can be written under the version it returns (NOT guaranteed by the
+code: see `unencodable_response_unanswered`) -/
+def EngineEncodable (env : Env Q R σ) : Prop :=
+  ∀ s q id r m v s', env.engine s q id = (.ok r m v, s') → ∃ n, env.encLen (.normal r) v = some n
+
+/-- FULL statement: whatever the decoder, the engine and the engine's response are, every framed
+request of the stream gets exactly one response, in order, and nothing but the end of the
+connection ends an iteration. -/
+def OneResponsePerFrame (env : Env Q R σ) (cfg : SessionCfg) : Prop :=
+  ∀ (peer : Option Cert) (s : σ) (cs : List Bytes), (∀ b ∈ cs, b ≠ []) →
+    (run env cfg peer s (ofChunks cs)).1.map Event.frame? = (frames (ofChunks cs)).1.map some ∧
+    ∀ e ∈ (run env cfg peer s (ofChunks cs)).1, ∃ f o r, e = Event.handled f o ∧ o.sent = some r
 
 theorem emit_error (env : Env Q R σ) (cfg : SessionCfg) (henc : EncoderOk env cfg) (hdr : Ver) (rsn : Nat)
     (req : Option Q) (call : Option (Q × Identity)) :
@@ -86,7 +103,7 @@ theorem emit_sends (env : Env Q R σ) (cfg : SessionCfg) (henc : EncoderOk env c
 
 /-- Every framed request gets a response: no exception leaves `_handle_message_loop`. -/
 theorem handle_one_response (env : Env Q R σ) (cfg : SessionCfg) (henc : EncoderOk env cfg)
-    (peer : Option Cert) (s : σ) (data : Bytes) :
+    (heng : EngineEncodable env) (peer : Option Cert) (s : σ) (data : Bytes) :
     ∃ r, (handleMessage env cfg peer s data).1.sent = some r := by
   unfold handleMessage evaluate
   split
@@ -97,13 +114,13 @@ theorem handle_one_response (env : Env Q R σ) (cfg : SessionCfg) (henc : Encode
       · rw [emit_error env cfg henc]; exact ⟨_, rfl⟩
       · split
         · rename_i he
-          obtain ⟨n, hn⟩ := henc.engEnc _ _ _ _ _ _ _ he
+          obtain ⟨n, hn⟩ := heng _ _ _ _ _ _ _ he
           exact emit_sends env cfg henc _ _ rfl n hn
         · rw [emit_error env cfg henc]; exact ⟨_, rfl⟩
         · rw [emit_error env cfg henc]; exact ⟨_, rfl⟩
 
 theorem runReads_one_per_frame (env : Env Q R σ) (cfg : SessionCfg) (henc : EncoderOk env cfg)
-    (peer : Option Cert) (rs : List Recv) (hns : ∀ p, Recv.short p ∉ rs) (s : σ) :
+    (heng : EngineEncodable env) (peer : Option Cert) (rs : List Recv) (hns : ∀ p, Recv.short p ∉ rs) (s : σ) :
     (runReads env cfg peer s rs).1.map Event.frame? = (framesOf rs).1.map some ∧
     ∀ e ∈ (runReads env cfg peer s rs).1, ∃ f o r, e = Event.handled f o ∧ o.sent = some r := by
   induction rs generalizing s with
@@ -115,7 +132,7 @@ theorem runReads_one_per_frame (env : Env Q R σ) (cfg : SessionCfg) (henc : Enc
     | short p => exact absurd (List.mem_cons_self ..) (hns p)
     | ok d =>
       simp only [runReads, framesOf]
-      obtain ⟨r, hr⟩ := handle_one_response env cfg henc peer s d
+      obtain ⟨r, hr⟩ := handle_one_response env cfg henc heng peer s d
       obtain ⟨ih1, ih2⟩ := ih hxs (handleMessage env cfg peer s d).2
       constructor
       · simp only [List.map_cons, Event.frame?, ih1]
@@ -124,18 +141,53 @@ theorem runReads_one_per_frame (env : Env Q R σ) (cfg : SessionCfg) (henc : Enc
         · exact ⟨_, _, r, rfl, hr⟩
         · exact ih2 e he
 
-/-- The session answers the framed requests of the stream one by one, in order: the events of the
+/-- What holds of the code: the full statement for every engine whose responses can be encoded.
+The session answers the framed requests of the stream one by one, in order: the events of the
 loop are exactly one per framed request, each of them sent a response, and no exception other
 than the end of the connection left an iteration. -/
-theorem one_response_per_frame (env : Env Q R σ) (cfg : SessionCfg) (henc : EncoderOk env cfg)
-    (peer : Option Cert) (s : σ) (cs : List Bytes) (h : ∀ b ∈ cs, b ≠ []) :
-    (run env cfg peer s (ofChunks cs)).1.map Event.frame? = (frames (ofChunks cs)).1.map some ∧
-    ∀ e ∈ (run env cfg peer s (ofChunks cs)).1, ∃ f o r, e = Event.handled f o ∧ o.sent = some r := by
+theorem one_response_per_frame_partial (env : Env Q R σ) (cfg : SessionCfg) (henc : EncoderOk env cfg)
+    (heng : EngineEncodable env) : OneResponsePerFrame env cfg := by
+  intro peer s cs h
   rw [run_eq_runReads]
   unfold frames
-  apply runReads_one_per_frame env cfg henc
+  apply runReads_one_per_frame env cfg henc heng
   rw [reads_clean _ (clean_ofChunks _ h)]
   exact flatReads_no_short _
+
+theorem runReads_event_per_frame (env : Env Q R σ) (cfg : SessionCfg) (peer : Option Cert) (rs : List Recv)
+    (hns : ∀ p, Recv.short p ∉ rs) (s : σ) :
+    (runReads env cfg peer s rs).1.map Event.frame? = (framesOf rs).1.map some := by
+  induction rs generalizing s with
+  | nil => rfl
+  | cons x xs ih =>
+    have hxs : ∀ p, Recv.short p ∉ xs := fun p hp => hns p (List.mem_cons_of_mem _ hp)
+    cases x with
+    | closed p => rfl
+    | short p => exact absurd (List.mem_cons_self ..) (hns p)
+    | ok d => simp only [runReads, framesOf, List.map_cons, Event.frame?, ih hxs]
+
+/-- Even without that assumption the events are one per framed request, in order (an iteration
+whose `write` raises sends nothing, is logged, and the loop goes on). -/
+theorem one_event_per_frame (env : Env Q R σ) (cfg : SessionCfg) (peer : Option Cert) (s : σ)
+    (cs : List Bytes) (h : ∀ b ∈ cs, b ≠ []) :
+    (run env cfg peer s (ofChunks cs)).1.map Event.frame? = (frames (ofChunks cs)).1.map some := by
+  rw [run_eq_runReads]
+  unfold frames
+  apply runReads_event_per_frame
+  rw [reads_clean _ (clean_ofChunks _ h)]
+  exact flatReads_no_short _
+
+/-- Witness of the deviation: the engine answered, its response cannot be encoded, nothing is sent. -/
+theorem unencodable_response_unanswered (env : Env Q R σ) (cfg : SessionCfg)
+    (peer : Option Cert) (cert : Cert) (s s' : σ) (data : Bytes) (req : Q) (id : Identity) (r : R)
+    (m : Option Int) (v : Ver)
+    (hcert : certStage cfg.auth.tlsClientAuth peer = some cert) (hp : env.parse data = some req)
+    (ha : authenticate cfg.auth cert = some id) (he : env.engine s req id = (.ok r m v, s'))
+    (hn : env.encLen (.normal r) v = none) :
+    (handleMessage env cfg peer s data).1.sent = none ∧
+    (handleMessage env cfg peer s data).1.engineCall = some (req, id) := by
+  unfold handleMessage evaluate
+  simp [hcert, hp, ha, he, emit, hn]
 
 /-! ## an undecodable frame: invalid-message error, nothing executed -/
 
@@ -278,7 +330,30 @@ def demoCfg : SessionCfg := { auth := { tlsClientAuth := true, plugins := [], sl
 def demoCert : Cert := ⟨some [.clientAuth], ["alice"]⟩
 
 theorem demo_encoderOk (m : Option Int) : EncoderOk (demoEnv m) demoCfg :=
-  ⟨fun _ _ _ => ⟨100, rfl, by decide⟩, fun _ _ _ _ _ _ _ _ => ⟨100, rfl⟩⟩
+  ⟨fun _ _ _ => ⟨100, rfl, by decide⟩⟩
+theorem demo_engineEncodable (m : Option Int) : EngineEncodable (demoEnv m) :=
+  fun _ _ _ _ _ _ _ _ => ⟨100, rfl⟩
+
+/-- the same world with an encoder that cannot write the engine's response -/
+def demoEnvUnencodable : Env Unit Unit Unit :=
+  { demoEnv none with encLen := fun r _ => match r with | .normal _ => none | .error _ _ => some 100 }
+
+theorem demoUnencodable_encoderOk : EncoderOk demoEnvUnencodable demoCfg := ⟨fun _ _ _ => ⟨100, rfl, by decide⟩⟩
+
+/-- `OneResponsePerFrame` does not hold of the code as it is: one complete frame, no response. -/
+theorem one_response_full_statement_fails : ¬ OneResponsePerFrame demoEnvUnencodable demoCfg := by
+  intro h
+  obtain ⟨_, h2⟩ := h (some demoCert) () [[0x42, 0, 0x78, 1, 0, 0, 0, 0]] (by decide)
+  have hrun : (run demoEnvUnencodable demoCfg (some demoCert) () (ofChunks [[0x42, 0, 0x78, 1, 0, 0, 0, 0]])).1
+      = [Event.handled [0x42, 0, 0x78, 1, 0, 0, 0, 0] ⟨none, some ((), ⟨some "alice", none⟩)⟩] := by
+    rw [run_eq_runReads, reads_clean _ (clean_ofChunks _ (by decide)), flat_ofChunks]
+    have hfl : [[0x42, 0, 0x78, 1, 0, 0, 0, 0]].flatten = ([0x42, 0, 0x78, 1, 0, 0, 0, 0] : Bytes) ++ [] := by simp
+    rw [hfl, flatReads_append _ (by decide), flatReads_none (by decide)]
+    rfl
+  rw [hrun] at h2
+  obtain ⟨f, o, r, he, hs⟩ := h2 _ (List.mem_cons_self ..)
+  cases he
+  cases hs
 
 /-- the 100-byte response is sent although the client asked for at most 0 bytes -/
 theorem oversize_zero_not_replaced :
@@ -312,7 +387,9 @@ example : frames (ofChunks ((demoFrame ++ demoFrame).map fun b => [b])) = ([demo
     (by decide) (by decide)
 /-- an undecodable frame exists for some decoder: hypotheses of `loop_continues` are satisfiable -/
 example : ∃ env : Env Unit Unit Unit, env.parse demoFrame = none ∧ EncoderOk env demoCfg :=
-  ⟨{ demoEnv none with parse := fun _ => none }, rfl,
-   ⟨fun _ _ _ => ⟨100, rfl, by decide⟩, fun _ _ _ _ _ _ _ _ => ⟨100, rfl⟩⟩⟩
+  ⟨{ demoEnv none with parse := fun _ => none }, rfl, ⟨fun _ _ _ => ⟨100, rfl, by decide⟩⟩⟩
+/-- the hypotheses of `one_response_per_frame_partial` are satisfiable -/
+example : OneResponsePerFrame (demoEnv none) demoCfg :=
+  one_response_per_frame_partial _ _ (demo_encoderOk _) (demo_engineEncodable _)
 
 end Kmip.C12
